@@ -206,3 +206,22 @@ def sector_layouts(L, qd, prof, q_left=0, totals=None, extra=()):
             axes.append(list(itertools.product(al, repeat=D)))
         for combo in itertools.product(*axes):
             yield qd, [[q_left]] + [list(c) for c in combo] + [[tot]]
+
+
+def mps_structs(L, qd, Ds, totals=None, q_left=0, extra=()):
+    """[(total, qD)] for all sector-consistent MPS bond layouts."""
+    out = []
+    for prof in bond_profiles(L, Ds):
+        for _, qD in sector_layouts(L, qd, prof, q_left=q_left, totals=totals, extra=extra):
+            out.append((qD[-1][0], qD))
+    return out
+
+
+def mpo_structs(L, qd, Ds, totals=None, q_left=0):
+    """[(total, qD)] for MPO bond layouts: a site changes the bond charge by qd[s]-qd[t]."""
+    diffs = sorted({a - b for a in qd for b in qd})
+    out = []
+    for prof in bond_profiles(L, Ds):
+        for _, qD in sector_layouts(L, diffs, prof, q_left=q_left, totals=totals):
+            out.append((qD[-1][0], qD))
+    return out
